@@ -73,6 +73,8 @@ type round struct {
 	f        *fox.Router
 	K        int // data routes written together with /ver
 	nA, nB   int // multi-route writers, single-op writers
+	nE       int // verb writers: each commit adds the first route of a new custom method and removes the last of the old one
+	opsE     int
 	nD       int // 0 or 1 truncate writer (owns the TRACE and PURGE method roots)
 	opsD     int
 	nC       int // family writers: Update(parent) then writes below it, in one cached transaction
@@ -112,6 +114,48 @@ var truncMethods = [2]string{"TRACE", "PURGE"}
 
 func tpath(j int) string   { return "/t/" + strconv.Itoa(j) }
 func tobj(mi, j int) int    { return 900 + 100*mi + j }
+
+// verb family i (owner: verb writer i): at every published state exactly ONE custom method VB<I><k> has the route
+// /m/i; version k is spelled in the method name, so every answer computed from the set of method roots
+// (OPTIONS *, OPTIONS /m/i, the Allow header of a 405) identifies the tree version it was computed from.
+func encK(k uint64) string {
+	s := ""
+	for {
+		s = string(rune('A'+k%26)) + s
+		k /= 26
+		if k == 0 {
+			return s
+		}
+	}
+}
+func verbName(i int, k uint64) string   { return "VB" + string(rune('A'+i)) + encK(k) }
+func poisonVerb(i int, n uint64) string { return "VX" + string(rune('A'+i)) + encK(n) }
+func mpath(i int) string                { return "/m/" + strconv.Itoa(i) }
+func vobj(i int) int                    { return 1100 + 100*i }
+
+// decodes the methods of an Allow header / a snapshot: family -> versions seen
+func (r *round) verbsIn(methods []string, how string) []ov {
+	var vs []ov
+	cnt := make([]int, r.nE)
+	for _, m := range methods {
+		if strings.HasPrefix(m, "VX") {
+			r.fail("%s shows the method %s of a transaction that was ABORTED", how, m)
+		}
+		if len(m) > 3 && strings.HasPrefix(m, "VB") {
+			i := int(m[2] - 'A')
+			if i < 0 || i >= r.nE {
+				continue
+			}
+			k := uint64(0)
+			for _, c := range m[3:] {
+				k = k*26 + uint64(c-'A')
+			}
+			cnt[i]++
+			vs = append(vs, ov{vobj(i), k})
+		}
+	}
+	return vs
+}
 
 var famSuffix = [famSize]string{"", "/a", "/b", "/a/deep"}
 
@@ -198,7 +242,7 @@ func sreq(i int) string  { return "/s/" + strconv.Itoa(i) + "/77" }
 func cpat(i int) string  { return "/c/" + strconv.Itoa(i) + "/z" }
 
 func (r *round) setup() {
-	f, err := fox.New()
+	f, err := fox.New(fox.WithAutoOptions(true), fox.WithNoMethod(true))
 	hx.Fatal(err)
 	r.f = f
 	must := func(_ *fox.Route, err error) { hx.Fatal(err) }
@@ -225,6 +269,9 @@ func (r *round) setup() {
 				must(f.Handle(m, tpath(j), handler(0), ann(0)))
 			}
 		}
+	}
+	for i := 0; i < r.nE; i++ {
+		must(f.Handle(verbName(i, 0), mpath(i), handler(0), ann(0)))
 	}
 }
 
@@ -484,6 +531,73 @@ func (r *round) writerC(tid, i int, rnd *hx.Rand, out *[]rec) {
 	}
 }
 
+// verb writer i: each transaction registers /m/i under a NEW custom method (the first route of that method: a method
+// root is added) and deletes it under the previous one (its last route: the root is removed), in either order, in
+// one transaction; committed, or aborted with a poisoned method name.
+func (r *round) writerE(tid, i int, rnd *hx.Rand, out *[]rec) {
+	k := uint64(0)
+	for n := 0; n < r.opsE; n++ {
+		commit := rnd.Pct(65)
+		newM := verbName(i, k+1)
+		if !commit {
+			newM = poisonVerb(i, uint64(n))
+		}
+		oldM := verbName(i, k)
+		body := func(txn *fox.Txn) bool {
+			ok := true
+			add := func() {
+				_, err := txn.Handle(newM, mpath(i), handler(k+1), ann(k+1))
+				ok = ok && err == nil
+			}
+			del := func() {
+				_, err := txn.Delete(oldM, mpath(i))
+				ok = ok && err == nil
+			}
+			if rnd.Bool() {
+				add()
+				del()
+			} else {
+				del()
+				add()
+			}
+			return ok
+		}
+		e := rec{tid: tid, kind: 'A'}
+		ok := false
+		e.call = clock.Add(1)
+		switch {
+		case commit && rnd.Bool():
+			e.what = "verb Txn/Commit"
+			txn := r.f.Txn(true)
+			ok = body(txn)
+			txn.Commit()
+		case commit:
+			e.what = "verb Updates/commit"
+			if err := r.f.Updates(func(txn *fox.Txn) error { ok = body(txn); return nil }); err != nil {
+				ok = false
+			}
+		case rnd.Bool():
+			e.what = "verb Txn/Abort"
+			txn := r.f.Txn(true)
+			body(txn)
+			txn.Abort()
+		default:
+			e.what = "verb Updates/error"
+			if err := r.f.Updates(func(txn *fox.Txn) error { body(txn); return errAbort }); !errors.Is(err, errAbort) {
+				r.fail("Updates did not return fn's error: %v", err)
+			}
+		}
+		e.ret = clock.Add(1)
+		if commit {
+			k++
+			e.kind = 'W'
+			e.ok = ok
+			e.vs = []ov{{vobj(i), k}}
+		}
+		*out = append(*out, e)
+	}
+}
+
 // truncate writer: every transaction's FIRST mutation is Truncate(methods...) on method roots nobody else writes
 // (common verb TRACE, custom verb PURGE, one or both, in both orders), followed by the re-registration of every
 // route of the truncated methods; ended by Commit, or by Abort / error (then with poisoned tags, or with no
@@ -601,6 +715,7 @@ func (r *round) targets() []target {
 func (r *round) snapshotOf(all func(func(string, *fox.Route) bool)) []ov {
 	var vs []ov
 	nx, nf, nt := 0, 0, 0
+	var verbs []string
 	all(func(m string, rte *fox.Route) bool {
 		v, _ := verOf(rte)
 		p := rte.Pattern()
@@ -622,6 +737,8 @@ func (r *round) snapshotOf(all func(func(string, *fox.Route) bool)) []ov {
 		case strings.HasPrefix(p, "/c/"):
 			i, _ := strconv.Atoi(p[3:strings.LastIndex(p, "/")])
 			vs = append(vs, ov{objC + i, v})
+		case strings.HasPrefix(p, "/m/"):
+			verbs = append(verbs, m)
 		case strings.HasPrefix(p, "/t/"):
 			j, _ := strconv.Atoi(p[3:])
 			for mi := range truncMethods {
@@ -652,6 +769,11 @@ func (r *round) snapshotOf(all func(func(string, *fox.Route) bool)) []ov {
 	if nx != 1 {
 		r.fail("snapshot shows %d /x routes (a partially applied transaction)", nx)
 	}
+	mv := r.verbsIn(verbs, "a snapshot")
+	if len(mv) != r.nE || len(verbs) != r.nE {
+		r.fail("snapshot shows the routes /m/* under the methods %v: not exactly one per verb family (a partially applied transaction)", verbs)
+	}
+	vs = append(vs, mv...)
 	if nt != 2*truncN*r.nD {
 		r.fail("snapshot shows %d TRACE/PURGE routes instead of %d (an uncommitted, aborted or partial Truncate is visible)", nt, 2*truncN*r.nD)
 	}
@@ -675,11 +797,59 @@ func (r *round) reader(tid int, rnd *hx.Rand, out *[]rec, stop *atomic.Bool) {
 		ti := rnd.Intn(len(ts))
 		t := ts[ti]
 		record := n%r.recEvery == 0
-		kind := rnd.Intn(150)
+		kind := rnd.Intn(185)
 		if record {
 			e.call = clock.Add(1)
 		}
 		switch {
+		case kind >= 150:
+			// answers computed from the SET OF METHOD ROOTS of the tree the request loaded: the Allow header of
+			// OPTIONS *, of OPTIONS <path> and of a 405. The verb families spell their version in the method name, so
+			// each answer is an observation of a tree version like any other read.
+			var req *http.Request
+			wantStatus := http.StatusOK
+			fam := -1
+			switch {
+			case kind < 165 || r.nE == 0:
+				e.what = "OPTIONS *"
+				req = httptest.NewRequest(http.MethodOptions, "*", nil)
+			case kind < 175:
+				fam = rnd.Intn(r.nE)
+				e.what = "OPTIONS " + mpath(fam)
+				req = httptest.NewRequest(http.MethodOptions, mpath(fam), nil)
+			default:
+				fam = rnd.Intn(r.nE)
+				e.what = "405 on GET " + mpath(fam)
+				req = httptest.NewRequest(http.MethodGet, mpath(fam), nil)
+				wantStatus = http.StatusMethodNotAllowed
+			}
+			w := httptest.NewRecorder()
+			r.f.ServeHTTP(w, req)
+			allow := strings.Split(w.Header().Get("Allow"), ", ")
+			if w.Code != wantStatus {
+				r.fail("%s by goroutine %d: status %d, Allow %q", e.what, tid, w.Code, w.Header().Get("Allow"))
+			}
+			e.vs = r.verbsIn(allow, e.what)
+			has := func(m string) bool {
+				for _, a := range allow {
+					if a == m {
+						return true
+					}
+				}
+				return false
+			}
+			if fam >= 0 {
+				if len(e.vs) != 1 || e.vs[0].o != vobj(fam) {
+					r.fail("%s by goroutine %d: Allow %q does not name exactly one method of verb family %d", e.what, tid, w.Header().Get("Allow"), fam)
+				}
+			} else {
+				if len(e.vs) != r.nE {
+					r.fail("OPTIONS * by goroutine %d: Allow %q does not name exactly one method per verb family (%d families)", tid, w.Header().Get("Allow"), r.nE)
+				}
+				if !has("GET") || (r.nB > 0 && !has("POST")) || (r.nD > 0 && (!has("TRACE") || !has("PURGE"))) {
+					r.fail("OPTIONS * by goroutine %d: Allow %q lacks a method that has routes in every published state", tid, w.Header().Get("Allow"))
+				}
+			}
 		case kind >= 125:
 			// the same, through code that COPIES the context: a middleware calling Clone or CloneWith (+ Close), or
 			// Lookup followed by CloneWith; the original and the copy, before and after the handler ran, must all show
@@ -796,7 +966,7 @@ func (r *round) reader(tid int, rnd *hx.Rand, out *[]rec, stop *atomic.Bool) {
 			e.what = "Iter"
 			it := r.f.Iter()
 			e.vs = r.snapshotOf(it.All())
-			if l := r.f.Len(); l < r.K+2+r.nB+famSize*r.nC+2*len(paramRoutes)+2*truncN*r.nD {
+			if l := r.f.Len(); l < r.K+2+r.nB+famSize*r.nC+2*len(paramRoutes)+2*truncN*r.nD+r.nE {
 				r.fail("Len() = %d", l)
 			}
 		default:
@@ -840,7 +1010,7 @@ func (r *round) run(rnd *hx.Rand) (events []event, dur time.Duration) {
 	r.setup()
 	old := runtime.GOMAXPROCS(r.procs)
 	defer runtime.GOMAXPROCS(old)
-	nth := r.nA + r.nB + r.nC + r.nD + r.nR
+	nth := r.nA + r.nB + r.nC + r.nD + r.nE + r.nR
 	recs := make([][]rec, nth)
 	rnds := make([]*hx.Rand, nth)
 	for i := range rnds {
@@ -878,8 +1048,12 @@ func (r *round) run(rnd *hx.Rand) (events []event, dur time.Duration) {
 		tid := r.nA + r.nB + r.nC
 		guard(tid, &wgW, func() { r.writerD(tid, rnds[tid], &recs[tid]) })
 	}
+	for i := 0; i < r.nE; i++ {
+		tid, k := r.nA+r.nB+r.nC+r.nD+i, i
+		guard(tid, &wgW, func() { r.writerE(tid, k, rnds[tid], &recs[tid]) })
+	}
 	for i := 0; i < r.nR; i++ {
-		tid := r.nA + r.nB + r.nC + r.nD + i
+		tid := r.nA + r.nB + r.nC + r.nD + r.nE + i
 		guard(tid, &wgR, func() { r.reader(tid, rnds[tid], &recs[tid], &stop) })
 	}
 	t0 := time.Now()
@@ -1025,6 +1199,8 @@ func main() {
 		r.K = rr.Range(1, 5)
 		r.nA = rr.Range(1, 4)
 		r.nB = rr.Range(0, 4)
+		r.nE = rr.Range(0, 2)
+		r.opsE = rr.Range(15, 60)
 		r.nD = rr.Intn(2)
 		r.opsD = rr.Range(10, 40)
 		r.nC = rr.Range(0, 3)
@@ -1035,7 +1211,7 @@ func main() {
 		r.opsB = rr.Range(20, 120)
 		r.opsR = rr.Range(200, 1500)
 		if tier == "thorough" {
-			r.opsA, r.opsB, r.opsC, r.opsD, r.opsR = r.opsA*2, r.opsB*2, r.opsC*2, r.opsD*2, r.opsR*4
+			r.opsA, r.opsB, r.opsC, r.opsD, r.opsE, r.opsR = r.opsA*2, r.opsB*2, r.opsC*2, r.opsD*2, r.opsE*2, r.opsR*4
 		}
 		if k%7 == 6 { // reader-heavy / writer-heavy extremes
 			r.nR, r.nA = 12, 1
@@ -1076,10 +1252,10 @@ func main() {
 		overlap = len(hit)
 		totalOverlap += overlap
 		totalOps += len(events) / 2
-		totalRun += r.nA*r.opsA + r.nB*r.opsB + r.nC*r.opsC + r.nD*r.opsD + r.nR*r.opsR
-		nontriv := r.nA+r.nB+r.nC+r.nD >= 2 && overlap > 0
-		cfg := fmt.Sprintf("round %d seed=%d K=%d writersA=%d writersB=%d writersC=%d truncateWriter=%d readers=%d GOMAXPROCS=%d ops=%d reads-overlapping-a-commit=%d dur=%s",
-			k, r.seed, r.K, r.nA, r.nB, r.nC, r.nD, r.nR, r.procs, len(events)/2, overlap, dur.Round(time.Millisecond))
+		totalRun += r.nA*r.opsA + r.nB*r.opsB + r.nC*r.opsC + r.nD*r.opsD + r.nE*r.opsE + r.nR*r.opsR
+		nontriv := r.nA+r.nB+r.nC+r.nD+r.nE >= 2 && overlap > 0
+		cfg := fmt.Sprintf("round %d seed=%d K=%d writersA=%d writersB=%d writersC=%d truncateWriter=%d verbWriters=%d readers=%d GOMAXPROCS=%d ops=%d reads-overlapping-a-commit=%d dur=%s",
+			k, r.seed, r.K, r.nA, r.nB, r.nC, r.nD, r.nE, r.nR, r.procs, len(events)/2, overlap, dur.Round(time.Millisecond))
 		human := cfg
 		if msg, _ := r.badMsg.Load().(string); msg != "" {
 			human += " FAILURE: " + msg
@@ -1106,6 +1282,7 @@ func main() {
 		st.Count(fmt.Sprintf("writers:%d", r.nA+r.nB+r.nC))
 		st.Count(fmt.Sprintf("family-writers:%d", r.nC))
 		st.Count(fmt.Sprintf("truncate-writer:%d", r.nD))
+		st.Count(fmt.Sprintf("verb-writers:%d", r.nE))
 		st.Count(fmt.Sprintf("readers:%02d", r.nR))
 		st.Count(fmt.Sprintf("txn-routes:%d", r.K+3))
 		if len(st.Samples) < 5 {
